@@ -72,6 +72,13 @@ type WaitBinding interface {
 	Close()
 }
 
+// StreamRequester is implemented by bindings in which requests travel as frames on a byte stream: all requests of a
+// step are written to ONE connection without waiting for replies, in one write ("pipelined") or cut into several
+// writes at arbitrary places ("fragmented").  It returns when every request was answered, or no more answers come.
+type StreamRequester interface {
+	RequestStream(codes []byte, dl string, r *mrand.Rand) (pan bool, err error)
+}
+
 // CondCounts reads, for a pointer to a struct with a field `conds [N]*sync.Cond`, the number of goroutines
 // parked on every condition variable: notify.wait - notify.notify of the runtime notify list.
 func CondCounts(server interface{}) (int, [][2]int, error) {
@@ -115,7 +122,11 @@ type WaitStep struct {
 	Op string   `json:"op"` // "reg" | "request" | "race"
 	Ws []string `json:"ws"` // waiters whose Wait call starts in this step
 	Wc []int    `json:"wc"` // their codes
-	Cs []int    `json:"cs"` // codes of the requests that arrive in this step (one connection each)
+	Cs []int    `json:"cs"` // codes of the requests that arrive in this step, in sending order
+	// Dl: delivery of the requests. "" / "single" = one connection each, one frame per write, reply awaited;
+	// "pipelined" = all frames on ONE connection back to back in one write, replies not awaited in between;
+	// "fragmented" = the byte stream of the frames cut at arbitrary places into several writes.
+	Dl string `json:"dl"`
 }
 
 // WaitWalk is one planned trace on a fresh server.
@@ -175,6 +186,7 @@ type wLabel struct {
 	Ws  []string `json:"ws"`
 	Wc  []int    `json:"wc"`
 	Cs  []int    `json:"cs"`
+	Dl  string   `json:"dl"`
 	Rel []string `json:"rel"`
 	N   int      `json:"n"`
 	Pan bool     `json:"pan"`
@@ -397,9 +409,43 @@ func (w *walkRun) settle() (int, [][2]int, error) {
 	return n, by, errors.New("observation does not settle")
 }
 
-func (w *walkRun) requests(cs []int, stagger bool) error {
+func (w *walkRun) requests(cs []int, stagger bool, dl string) error {
 	var wg sync.WaitGroup
 	done := make(chan struct{})
+	if dl == "pipelined" || dl == "fragmented" {
+		// one sender, one connection, requests in the given order
+		r := mrand.New(mrand.NewSource(w.rnd.Int63()))
+		codes := make([]byte, len(cs))
+		for i, c := range cs {
+			codes[i] = byte(c)
+		}
+		wg.Add(1)
+		go func() {
+			defer wg.Done()
+			var pan bool
+			var err error
+			if sr, ok := w.b.(StreamRequester); ok {
+				pan, err = sr.RequestStream(codes, dl, r)
+			} else {
+				for _, c := range codes {
+					p, e := w.b.Request(c, r)
+					pan = pan || p
+					if e != nil {
+						err = e
+					}
+				}
+			}
+			w.mu.Lock()
+			if pan {
+				w.pan = true
+			}
+			if err != nil && len(w.errs) < 4 {
+				w.errs = append(w.errs, fmt.Sprintf("request stream %v (%s): %v", cs, dl, err))
+			}
+			w.mu.Unlock()
+		}()
+		cs = nil
+	}
 	for _, c := range cs {
 		wg.Add(1)
 		var d time.Duration
@@ -427,8 +473,8 @@ func (w *walkRun) requests(cs []int, stagger bool) error {
 	select {
 	case <-done:
 		return nil
-	case <-time.After(20 * time.Second):
-		return errors.New("a request was not dispatched within 20s")
+	case <-time.After(40 * time.Second):
+		return errors.New("a request was not dispatched within 40s")
 	}
 }
 
@@ -488,7 +534,7 @@ func runWalk(wk WaitWalk, b WaitBinding, grace, regMs time.Duration, timing bool
 				n, by, err = w.quiesce(2*time.Second, 30*time.Second)
 			}
 		case "request":
-			if err = w.requests(st.Cs, len(st.Cs) > 1); err == nil {
+			if err = w.requests(st.Cs, len(st.Cs) > 1, st.Dl); err == nil {
 				if w.timing {
 					n, by, err = w.observeTiming(expect, watch)
 				} else {
@@ -499,7 +545,7 @@ func runWalk(wk WaitWalk, b WaitBinding, grace, regMs time.Duration, timing bool
 			for k, id := range st.Ws {
 				w.start(id, st.Wc[k], time.Duration(rnd.Intn(400))*time.Microsecond)
 			}
-			if err = w.requests(st.Cs, true); err == nil {
+			if err = w.requests(st.Cs, true, st.Dl); err == nil {
 				if w.timing {
 					n, by, err = w.observeTiming(expect, watch)
 				} else {
@@ -539,6 +585,13 @@ func runWalk(wk WaitWalk, b WaitBinding, grace, regMs time.Duration, timing bool
 		}
 		lab := &wLabel{Op: st.Op, Ws: append([]string{}, st.Ws...), Wc: append([]int{}, st.Wc...), Cs: append([]int{}, st.Cs...), Rel: rel, N: n, Pan: pan, Byc: by}
 		sort.Ints(lab.Cs)
+		lab.Dl = st.Dl
+		if lab.Dl == "" {
+			lab.Dl = "single"
+			if len(st.Cs) == 0 {
+				lab.Dl = "none"
+			}
+		}
 		recs = append(recs, wRec{Ev: "step", Tid: wk.ID, I: i, Pre: cur, E: lab, Post: post, Info: info})
 		cur = post
 		sum.Steps++
